@@ -2,6 +2,7 @@ package node
 
 import (
 	"fmt"
+	"strings"
 	"unicode/utf8"
 
 	"github.com/freeconf/yang/meta"
@@ -77,6 +78,20 @@ func (check fieldConstraints) checkValue(v val.Value, t *meta.Type) error {
 				}
 			}
 		}
+	case val.FmtBits:
+		if b, isBits := v.(val.Bits); isBits {
+			if err := check.checkBits(b, t); err != nil {
+				return err
+			}
+		}
+	case val.FmtBitsList:
+		if l, isBitsList := v.(val.BitsList); isBitsList {
+			for _, b := range l {
+				if err := check.checkBits(b, t); err != nil {
+					return err
+				}
+			}
+		}
 	case val.FmtIdentityRef:
 		if id, isId := v.(val.IdentRef); isId {
 			if err := check.checkIdentity(id, t); err != nil {
@@ -93,6 +108,27 @@ func (check fieldConstraints) checkValue(v val.Value, t *meta.Type) error {
 		}
 	}
 	return check.checkMember(v, t)
+}
+
+// checkBits: every name is a bit of the type and the positions are those of the names
+func (fieldConstraints) checkBits(b val.Bits, t *meta.Type) error {
+	var positions uint64
+	for _, label := range b.Labels {
+		declared := false
+		for _, bit := range t.Bits() {
+			if bit.Ident() == label {
+				positions |= 1 << uint(bit.Position)
+				declared = true
+			}
+		}
+		if !declared {
+			return fmt.Errorf("'%s' is not one of the bits defined", label)
+		}
+	}
+	if positions != b.Positions {
+		return fmt.Errorf("bit positions %b are not those of '%s'", b.Positions, strings.Join(b.Labels, " "))
+	}
+	return nil
 }
 
 // checkIdentity: RFC7950 Sec 9.10.2 - derived from every base of the type
